@@ -107,7 +107,20 @@ func (d *Decoder) PopUint() uint32 {
 	return binary.LittleEndian.Uint32(val)
 }
 
+// CheckErr returns the first error met while reading, like Encoder.CheckErr does for writing.
+func (d *Decoder) CheckErr() error {
+	return d.err
+}
+
 func (d *Decoder) PopRawBytes(size int) []byte {
+	if d.err != nil {
+		return nil
+	}
+	if size < 0 || size > d.buf.Len() {
+		d.err = fmt.Errorf("can't read %v bytes: %v bytes left", size, d.buf.Len())
+		return nil
+	}
+
 	val := make([]byte, size)
 	d.read(val)
 	if d.err != nil {
@@ -192,6 +205,12 @@ func (d *Decoder) popVector(as reflect.Type, ignoreCRC bool) any {
 	size := d.PopUint()
 	if d.err != nil {
 		d.err = errors.Wrap(d.err, "read vector size")
+		return nil
+	}
+
+	// every TL value takes at least one word, so an honest count never exceeds the number of words left
+	if int64(size) > int64(d.buf.Len()/WordLen) {
+		d.err = fmt.Errorf("vector of %v elements can't fit in %v bytes left", size, d.buf.Len())
 		return nil
 	}
 
